@@ -1110,6 +1110,14 @@ func RunSliceExpr(ctx *Task, expr *ast.SliceExpr) *errchain.PlError {
 
 	}
 
+	// a step beyond the object's length selects at most one element;
+	// limit it so that the index arithmetic below cannot overflow
+	if stepInt > length {
+		stepInt = length + 1
+	} else if stepInt < -length {
+		stepInt = -length - 1
+	}
+
 	switch start.T {
 	case ast.Invalid:
 		if stepInt > 0 {
@@ -1147,24 +1155,24 @@ func RunSliceExpr(ctx *Task, expr *ast.SliceExpr) *errchain.PlError {
 	case ast.String:
 		str := obj.V.(string)
 		if stepInt > 0 {
-			result := ""
+			result := []byte{}
 			if startInt < 0 {
 				startInt = 0
 			}
 			for i := startInt; i < endInt && i < length; i += stepInt {
-				result += string(str[i])
+				result = append(result, str[i])
 			}
-			ctx.Regs.ReturnAppend(V{result, ast.String})
+			ctx.Regs.ReturnAppend(V{string(result), ast.String})
 			return nil
 		} else {
-			result := ""
+			result := []byte{}
 			if startInt > length-1 {
 				startInt = length - 1
 			}
 			for i := startInt; i > endInt && i >= 0; i += stepInt {
-				result += string(str[i])
+				result = append(result, str[i])
 			}
-			ctx.Regs.ReturnAppend(V{result, ast.String})
+			ctx.Regs.ReturnAppend(V{string(result), ast.String})
 			return nil
 		}
 	default:
@@ -1176,7 +1184,11 @@ func RunSliceExpr(ctx *Task, expr *ast.SliceExpr) *errchain.PlError {
 			if endInt > length {
 				endInt = length
 			}
-			result := make([]any, 0, (endInt-startInt+stepInt-1)/stepInt)
+			n := 0
+			if startInt < endInt {
+				n = (endInt-startInt-1)/stepInt + 1
+			}
+			result := make([]any, 0, n)
 			for i := startInt; i < endInt; i += stepInt {
 				result = append(result, list[i])
 			}
@@ -1189,7 +1201,11 @@ func RunSliceExpr(ctx *Task, expr *ast.SliceExpr) *errchain.PlError {
 			if endInt < 0 {
 				endInt = -1
 			}
-			result := make([]any, 0, (startInt-endInt-stepInt-1)/(-stepInt))
+			n := 0
+			if startInt > endInt {
+				n = (startInt-endInt-1)/(-stepInt) + 1
+			}
+			result := make([]any, 0, n)
 			for i := startInt; i > endInt; i += stepInt {
 				result = append(result, list[i])
 			}
